@@ -6,6 +6,9 @@ checks are run, and every exit code other than 0 is a false alarm.
   ifswap    `if c: A else: B`           -> `if not c: B else: A`                  (both branches present, not an elif chain)
   kwargs    f(a, b)  of package functions -> f(p=a, q=b)  (all-keyword spelling)   / posargs: the reverse where the call is all-keyword
   temps     f(g(x), y)                  -> _mt1 = g(x); f(_mt1, y)                (for simple statements: argument expressions named first)
+  rettemp   return E                    -> _rt = E; return _rt
+  elsedrop  if c: ..return  else: REST  -> if c: ..return ; REST
+  posargs   f(p=a, q=b)                 -> f(a, b) when the keywords are a prefix of the signature
   commute   a + b, a * b                -> b + a, b * a                           (exactly commutative for two floating-point / array operands)
 """
 import ast, os, sys, copy
@@ -126,6 +129,82 @@ def temps(tree):
     return count
 
 
+class RetTemp(ast.NodeTransformer):
+    """return E -> _rt = E; return _rt"""
+    def __init__(self):
+        self.n = 0
+
+    def _block(self, stmts):
+        out = []
+        for s in stmts:
+            if isinstance(s, ast.Return) and s.value is not None and not isinstance(s.value, (ast.Name, ast.Constant)):
+                self.n += 1
+                nm = "_rt%d" % self.n
+                out.append(ast.copy_location(ast.Assign(targets=[ast.Name(id=nm, ctx=ast.Store())], value=s.value), s))
+                out.append(ast.copy_location(ast.Return(value=ast.Name(id=nm, ctx=ast.Load())), s))
+            else:
+                out.append(s)
+        return out
+
+    def generic_visit(self, node):
+        super().generic_visit(node)
+        for f in ("body", "orelse", "finalbody"):
+            sub = getattr(node, f, None)
+            if isinstance(sub, list) and sub and isinstance(sub[0], ast.stmt):
+                setattr(node, f, self._block(sub))
+        return node
+
+
+class ElseDrop(ast.NodeTransformer):
+    """if c: ...return/raise  else: REST   ->   if c: ...return/raise ; REST"""
+    def __init__(self):
+        self.n = 0
+
+    def _term(self, body):
+        return bool(body) and isinstance(body[-1], (ast.Return, ast.Raise, ast.Continue, ast.Break))
+
+    def _block(self, stmts):
+        out = []
+        for s in stmts:
+            if isinstance(s, ast.If) and s.orelse and self._term(s.body) and not (len(s.orelse) == 1 and isinstance(s.orelse[0], ast.If)):
+                rest = s.orelse
+                s.orelse = []
+                out.append(s)
+                out.extend(rest)
+                self.n += 1
+            else:
+                out.append(s)
+        return out
+
+    def generic_visit(self, node):
+        super().generic_visit(node)
+        for f in ("body", "orelse", "finalbody"):
+            sub = getattr(node, f, None)
+            if isinstance(sub, list) and sub and isinstance(sub[0], ast.stmt):
+                setattr(node, f, self._block(sub))
+        return node
+
+
+class PosArgs(ast.NodeTransformer):
+    """f(p=a, q=b) -> f(a, b) for package functions when the keywords are a prefix of the signature in order"""
+    def __init__(self, sigs):
+        self.sigs, self.n = sigs, 0
+
+    def visit_Call(self, n):
+        self.generic_visit(n)
+        if isinstance(n.func, ast.Name) and n.func.id in self.sigs and n.keywords and not any(isinstance(a, ast.Starred) for a in n.args) and not any(k.arg is None for k in n.keywords):
+            params = self.sigs[n.func.id]
+            k = len(n.args)
+            moved = 0
+            while n.keywords and k < len(params) and n.keywords[0].arg == params[k]:
+                n.args.append(n.keywords.pop(0).value)
+                k += 1
+                moved += 1
+            if moved:
+                self.n += 1
+        return n
+
+
 def transform(text, kind, sigs):
     tree = ast.parse(text)
     if kind == "ifswap":
@@ -142,6 +221,18 @@ def transform(text, kind, sigs):
         n = t.n
     elif kind == "temps":
         n = temps(tree)
+    elif kind == "rettemp":
+        t = RetTemp()
+        tree = t.visit(tree)
+        n = t.n
+    elif kind == "elsedrop":
+        t = ElseDrop()
+        tree = t.visit(tree)
+        n = t.n
+    elif kind == "posargs":
+        t = PosArgs(sigs)
+        tree = t.visit(tree)
+        n = t.n
     else:
         raise SystemExit("unknown transformation " + kind)
     ast.fix_missing_locations(tree)
@@ -149,7 +240,7 @@ def transform(text, kind, sigs):
 
 
 def main():
-    kinds = sys.argv[1:] or ["ifswap", "kwargs", "temps", "commute"]
+    kinds = sys.argv[1:] or ["ifswap", "kwargs", "posargs", "temps", "rettemp", "elsedrop", "commute"]
     known = {k["key"] for k in load_known() if k.get("status") == "known"}
     sigs = package_signatures()
     paths = []
